@@ -65,6 +65,7 @@ type scriptReader struct {
 	k       int
 	cancel  context.CancelFunc
 	started int
+	joinEOF bool // the last chunk is delivered together with io.EOF
 }
 
 func (r *scriptReader) Read(p []byte) (int, error) {
@@ -84,6 +85,9 @@ func (r *scriptReader) Read(p []byte) (int, error) {
 		if r.how == "cancel" && r.i >= r.k {
 			r.cancel()
 		}
+		if r.joinEOF && r.i >= len(r.chunks) && r.how == "ok" {
+			return n, io.EOF
+		}
 	}
 	return n, nil
 }
@@ -93,6 +97,7 @@ type Calc struct {
 	Outcome string   `json:"outcome"`
 	K       int      `json:"k"`
 	Same    bool     `json:"same"`
+	EOF     string   `json:"eof"`
 }
 
 type Behaviour struct {
@@ -164,7 +169,7 @@ func runHistory(id int, b *Behaviour, algo, scale, via string, dir string) hk.Re
 		chunks, all := materialise(c, scale)
 		ctx, cancel := context.WithCancel(context.Background())
 		how := c.Outcome
-		sr := &scriptReader{chunks: chunks, how: how, k: c.K, cancel: cancel}
+		sr := &scriptReader{chunks: chunks, how: how, k: c.K, cancel: cancel, joinEOF: c.EOF == "joined"}
 		if how == "cancel" && c.K == 0 {
 			cancel()
 		}
@@ -180,7 +185,7 @@ func runHistory(id int, b *Behaviour, algo, scale, via string, dir string) hk.Re
 				res.Status, res.Detail = "skip", "cannot write file: "+werr.Error()
 				return res
 			}
-			if how == "ok" {
+			if how == "ok" && c.EOF != "joined" {
 				// plain file hashing: the digest of the file's bytes
 				all = append([]byte{'x'}, all...)
 				digest, cerr = fhasher.CalculateFile(fs, p)
@@ -323,7 +328,7 @@ func record(a *hk.Args) error {
 				k = rng.Intn(len(chunks) + 1)
 			}
 			ctx, cancel := context.WithCancel(context.Background())
-			sr := &scriptReader{chunks: chunks, how: how, k: k, cancel: cancel}
+			sr := &scriptReader{chunks: chunks, how: how, k: k, cancel: cancel, joinEOF: rng.Intn(3) == 0}
 			if how == "cancel" && k == 0 {
 				cancel()
 			}
